@@ -107,9 +107,21 @@ struct Model {
     }
     // |value handed to the Differentiator - F(y)|: injected noise + rounding to double + long-double accumulation
     LD evalErr(int j, const std::vector<double>& y) const {
-        LD S = fabsl((LD)F[j].c0);
-        for (auto& t : F[j].terms) { LD p = fabsl((LD)t.c); for (auto& f : t.f) p *= fabsl(phi(f, dotS(f, y), 0)); S += p; }
-        return ((LD)acc + (LD)U * 1.0000001L) * fabsl(evalF(F[j], y)) * (1 + (LD)acc) + 64 * 5.5e-20L * S;
+        const LD EL = 64 * 5.5e-20L;                     // a generous multiple of the long-double epsilon
+        LD S = fabsl((LD)F[j].c0), A = 0;
+        for (auto& t : F[j].terms) {
+            LD p = fabsl((LD)t.c);
+            for (auto& f : t.f) p *= fabsl(phi(f, dotS(f, y), 0));
+            S += p;
+            // rounding of the factor arguments (cancellation inside a.y+b) propagated through phi'
+            for (size_t k = 0; k < t.f.size(); ++k) {
+                LD ds = fabsl((LD)t.f[k].b); for (size_t i = 0; i < y.size(); ++i) ds += fabsl((LD)t.f[k].a[i] * (LD)y[i]);
+                LD q = fabsl((LD)t.c) * fabsl(phi(t.f[k], dotS(t.f[k], y), 1)) * ds * EL;
+                for (size_t g = 0; g < t.f.size(); ++g) if (g != k) q *= fabsl(phi(t.f[g], dotS(t.f[g], y), 0));
+                A += q;
+            }
+        }
+        return ((LD)acc + (LD)U * 1.0000001L) * fabsl(evalF(F[j], y)) * (1 + (LD)acc) + EL * S + A;
     }
 };
 static std::vector<double> toStd(const Vector& v) { std::vector<double> r(v.size()); for (int i = 0; i < v.size(); ++i) r[i] = v[i]; return r; }
